@@ -1824,6 +1824,37 @@ func (m *streeModel) ruleSiblingAgree(c *Ctx) {
 			}
 		}
 		sortStrings(diff)
+		agreeNote := ""
+		{
+			// the two need not test alike to agree: compare what they do for every answer the finder can give
+			var hc, mc *ssa.Call
+			var ff *ssa.Function
+			find := func(fn *ssa.Function) *ssa.Call {
+				var out *ssa.Call
+				allInstrs(fn, func(in ssa.Instruction) {
+					if call, ok := in.(*ssa.Call); ok {
+						if cal := staticCallee(&call.Call); cal != nil && cal.Name() == pr[2] {
+							out, ff = call, cal
+						}
+					}
+				})
+				return out
+			}
+			hc, mc = find(has), find(mv)
+			if hc != nil && mc != nil && ff != nil {
+				switch v, why := m.sibAgree(has, mv, ff, hc, mc, pr[0], pr[1]); v {
+				case 1:
+					if len(diff) > 0 {
+						agreeNote = "; they test differently but"
+					} else {
+						agreeNote = "; they"
+					}
+					diff, agreeNote = nil, agreeNote+" agree on each of the "+why
+				case 2:
+					diff = []string{why}
+				}
+			}
+		}
 		// every answer other than a constant false is given after consulting the finder: a shortcut that says
 		// "yes" on its own evidence is not backed by what the move will do
 		var finder *ssa.Call
@@ -1861,7 +1892,7 @@ func (m *streeModel) ruleSiblingAgree(c *Ctx) {
 			})
 			sortStrings(diff)
 		}
-		c.judge(len(diff) == 0, "R-SIBLING-AGREE", key, has.Pos(), fmt.Sprintf("both apply %d identical tests to %s's results", len(a), pr[2]), strings.Join(diff, "; ")+": the predicate no longer predicts what the move does")
+		c.judge(len(diff) == 0, "R-SIBLING-AGREE", key, has.Pos(), fmt.Sprintf("both apply %d identical tests to %s's results%s", len(a), pr[2], agreeNote), strings.Join(diff, "; ")+": the predicate no longer predicts what the move does")
 	}
 }
 
